@@ -100,10 +100,15 @@ def run(ctx):
     ctx.cov['rule'] = ('rearrange: seeded command lists (0-8 commands: plain/join RunTask over 10 names, engine commands); '
                        'schedule_independence: seeded den_class programs (acyclic, join: all, guards) each run under several seeded '
                        'delivery orders, odd ones with definition caches dropped with probability 0.3 before an event, legacy and default '
-                       'scheduler; distinct = distinct program / command list; non-trivial = >= 3 tasks / >= 2 commands')
+                       'scheduler; engine_explore_C02: composed feature programs (with-items, sub-workflows, retry, wait, pause-before, join) under 5 '
+                       'delivery orders incl. a paused run and the default scheduler; distinct = distinct program / command list; non-trivial = >= 3 tasks / >= 2 commands')
     suite_rearrange(ctx)
     et.schedule_independence(ctx, ctx.n(40, 400), ctx.n(5, 8))
     et.trace_suite(ctx, ['C02'], ['evict', 'plain'], ctx.n(60, 600), ctx.n(60, 600), suite='engine_trace_C02')
+    # feature level (real engine only): composed with-items / sub-workflow / retry / wait / pause-before / join
+    # programs whose final summary must not depend on the delivery order, scheduler type or pause points
+    from harness import engine_explore as ee
+    ee.explore(ctx, ['C02', 'C01'], ['compose', 'dataflow', 'compose'], ctx.n(15, 150), 5, suite='engine_explore_C02')
 
 
 def search(ctx):
